@@ -5,18 +5,18 @@ Local Open Scope Z_scope.
 Theorem render_table vals : supported vals = true -> apply_wops (render vals) = table vals.
 Proof.
   destruct vals as [|v0 [|v1 [|v2 vals]]]; try discriminate.
-  - destruct v0 as [s|[b|]|[e|]|n|p|]; try discriminate; intros _; cbn.
+  - destruct v0 as [s|[b|]|[e|]|n|p|pb|]; try discriminate; intros _; cbn.
     + destruct s; reflexivity.
     + destruct b; reflexivity.
     + reflexivity.
     + reflexivity.
     + reflexivity.
-  - destruct v0 as [s|[b|]|[e|]|n|p|]; try discriminate;
-      destruct v1 as [s1|[b1|]|[e1|]|n1|p1|]; try discriminate; intros H; cbn in *;
+  - destruct v0 as [s|[b|]|[e|]|n|p|pb|]; try discriminate;
+      destruct v1 as [s1|[b1|]|[e1|]|n1|p1|pb1|]; try discriminate; intros H; cbn in *;
       try reflexivity;
       try (destruct s; reflexivity); try (destruct b; reflexivity);
       try (destruct s1; reflexivity); try (destruct b1; reflexivity).
-  - intros H. exfalso. destruct v0 as [s|[b|]|[e|]|n|p|], v1 as [s1|[b1|]|[e1|]|n1|p1|]; discriminate.
+  - intros H. exfalso. destruct v0 as [s|[b|]|[e|]|n|p|pb|], v1 as [s1|[b1|]|[e1|]|n1|p1|pb1|]; discriminate.
 Qed.
 
 (* nil / empty / zero results write nothing *)
@@ -25,14 +25,14 @@ Theorem empty_writes_nothing vals :
 Proof.
   intros S T.
   destruct vals as [|v0 [|v1 [|v2 vals]]]; try discriminate.
-  - destruct v0 as [s|[b|]|[e|]|n|p|]; try discriminate; cbn in *; try reflexivity.
+  - destruct v0 as [s|[b|]|[e|]|n|p|pb|]; try discriminate; cbn in *; try reflexivity.
     + destruct s; [reflexivity | discriminate].
     + destruct b; [reflexivity | discriminate].
-  - destruct v0 as [s|[b|]|[e|]|n|p|]; try discriminate;
-      destruct v1 as [s1|[b1|]|[e1|]|n1|p1|]; try discriminate; cbn in *;
+  - destruct v0 as [s|[b|]|[e|]|n|p|pb|]; try discriminate;
+      destruct v1 as [s1|[b1|]|[e1|]|n1|p1|pb1|]; try discriminate; cbn in *;
       try discriminate; try reflexivity;
       try (destruct s; [reflexivity | discriminate]); try (destruct b; [reflexivity | discriminate]).
-  - exfalso. destruct v0 as [s|[b|]|[e|]|n|p|], v1 as [s1|[b1|]|[e1|]|n1|p1|]; discriminate.
+  - exfalso. destruct v0 as [s|[b|]|[e|]|n|p|pb|], v1 as [s1|[b1|]|[e1|]|n1|p1|pb1|]; discriminate.
 Qed.
 
 (* and conversely anything the table maps to a response is written *)
